@@ -192,7 +192,7 @@ func runH2(r *hk.Run, rng *hk.Rand) {
 			sc.Fields = append(sc.Fields, wire.Field{Name: "content-encoding", Value: strings.TrimSuffix(coding, "-auto")})
 		}
 		// interim responses in front of the final one (some declaring a length of their own)
-		nInterim := []int{0, 0, 1, 0, 2, 0, 1, 5}[(i/len(terms)+i)%8]
+		nInterim := []int{0, 0, 1, 0, 2, 0, 1, 5, 6}[(i/len(terms)+i)%9] // 6: one more than the client accepts
 		if term == "no-headers" {
 			nInterim = 0
 		}
@@ -297,7 +297,15 @@ func runH2(r *hk.Run, rng *hk.Rand) {
 		// data and the declared length (if any) equals what was sent
 		properEnd := term == "end" || term == "end-empty" || term == "trailers" || term == "hdr-end"
 		consistent := properEnd && (cl < 0 || cl == len(sent)) && keep == len(pieces)
+		tooMany := nInterim > 5 // the client gives up at the sixth interim response: the model says "call fails", the property says nothing
+		if tooMany {
+			r.Count("h2.too-many-interim-responses")
+			if success {
+				r.Count("h2.too-many-interim-responses-accepted")
+			}
+		}
 		switch {
+		case tooMany:
 		case o.Panic != "" || o.Hung:
 			r.Fail(hk.Failure{Sig: "h2:panic-or-hang:" + sig, What: "exchange panicked or hung", Input: in, Got: o})
 		case success && !consistent:
